@@ -133,6 +133,9 @@ func moSpecs(quick bool) []moSpec {
 		Go: map[string]string{"user.go": "package carrier\n\nimport (\n\t\"bytes\"\n\t\"container/list\"\n\t\"container/ring\"\n\t\"strings\"\n\t\"time\"\n)\n\ntype Token struct{ Type int }\n\ntype parser struct{ lox }\n\n" +
 			"func (p *parser) on_a(_ Token) time.Duration { return 1 }\nfunc (p *parser) on_b(_ Token) *strings.Builder { return nil }\nfunc (p *parser) on_c(_ Token) *bytes.Buffer { return nil }\n" +
 			"func (p *parser) on_p(a time.Duration) *list.List { return nil }\nfunc (p *parser) on_q(b *strings.Builder, c *bytes.Buffer) *ring.Ring { return nil }\nfunc (p *parser) on_s(x *list.List, y *ring.Ring) int { return 0 }\n"}})
+	// rules named like the built-in terminals, met in one state with @error and
+	// the end of input: an order "by name" ties there
+	specs = append(specs, moSpec{Name: "rules-named-like-builtins", Lox: map[string]string{"g.lox": "@lexer\nX = 'x'\nY = 'y'\nSEMI = ';'\nLP = '('\nRP = ')'\n@parser\n@start s = stmt+\nstmt = ERROR SEMI | LP s RP | @error SEMI | EOF RP\nERROR = X | Y\nEOF = SEMI X\n"}})
 	for bi, b := range c17Bases() {
 		files, _ := b.render()
 		specs = append(specs, moSpec{Name: fmt.Sprintf("c17base%d", bi), Lox: files, Go: nil})
